@@ -49,6 +49,9 @@ claim("C09", "exact polynomial forms of the time scaling and group target + stor
 claim("C01", "polynomial/structural def-use forms (buffer size, frame expansion), single-definition sharing of the duration vector, clamp-domain floor, control-dependence of stream-2 accesses, explicit-panic ledger over the synthesis call-graph closure with mechanical guards + audited table, over rustc MIR",
       "Sound static decision of: samples = (frames - cursor) x fperiod with a fresh cursor of 0; one row per frame, frames = per-state flags expanded by the one shared duration vector; every value entering a duration vector >= 1; every label contributes states 2..2+nstate; every constant-stream-2 access is under num_streams > 2; no explicit panic construct (panic!/todo!/unwrap/expect/range slicing/integer division/precondition APIs) in the synthesis closure is unaudited. NOT decided: finiteness of samples, bounds/overflow checks inside the numeric kernels (counted, not judged).")
 
+claim("C17", "resolved delegation chain of the trait impls + read-set/control-dependence of the times field + taint from (sampling rate, frame period) + dominance/post-dominance pairing of pushes + panic ledger and `?`-propagation rules over the label reader, over rustc MIR",
+      "Sound static decision that the four label input forms converge on one constructor with the same labels, that time stamps are read only under the alignment flag and cannot influence the parsed labels, that blank lines are the only silently skipped lines and every other line pushes exactly one label and one time pair or returns an error, and that no panic-capable construct in the reader is unaudited (fallible parses are propagated as LabelError -> EngineError). jlabel's own parser is a model entry in the quick tier and scanned in the thorough tier.")
+
 
 def main():
     props = [json.loads(l) for l in open(os.path.join(VERIF, "properties.jsonl"))]
